@@ -127,7 +127,8 @@ Lemma ep_mutate_param pw pr p : env_pres (mutate_param pw pr p).
 Proof. unfold mutate_param. ep. Qed.
 
 Lemma ep_trait_mutate pw pr t : env_pres (trait_mutate pw pr t).
-Proof. unfold trait_mutate. ep. apply ep_mapM. intros x. apply ep_mutate_param. Qed.
+Proof. unfold trait_mutate. apply ep_bind; [|intros ?; apply ep_ret]. apply ep_mapM. intros x. apply ep_mutate_param. Qed.
+#[export] Hint Resolve ep_trait_mutate : ep.
 
 Lemma mapM_length {A B} (f : A -> @M st B) : forall l s l' s', mapM f l s = Ok (l', s') -> length l' = length l.
 Proof.
@@ -150,6 +151,9 @@ Proof.
   - f_equal. eapply IH; eauto.
 Qed.
 
+Lemma ep_random_trait o g : env_pres (mutate_random_trait o g).
+Proof. unfold mutate_random_trait. destruct (traits g); ep. Qed.
+
 Lemma random_trait_spec o g s g' b s' :
   mutate_random_trait o g s = Ok ((g', b), s') ->
   frame g g' /\ nodes g' = nodes g /\ genes g' = genes g /\
@@ -158,15 +162,9 @@ Lemma random_trait_spec o g s g' b s' :
   b = true /\ s_env s' = s_env s.
 Proof.
   unfold mutate_random_trait. intros H.
-  assert (Henv : s_env s' = s_env s).
-  { revert H. generalize (g', b). intros p H. revert s p s' H. change (env_pres (match traits g with
-      | [] => fail_err 40
-      | t :: l => let! k := r_intn (zlen (t :: l)) in let! t0 := lift (idx (t :: l) k) in
-                  let! t' := trait_mutate (o_trait_mut_power o) (o_trait_param_mut_prob o) t0 in
-                  ret (with_traits g (set_nth (t :: l) (Z.to_nat k) t'), true) end)).
-    destruct (traits g); ep. apply ep_trait_mutate. }
+  pose proof (ep_random_trait o g _ _ _ H) as Henv.
   destruct (traits g) as [|t0 ts] eqn:Et; minv. pairs. subst.
-  apply idx_inv in H. destruct H as [_ Hn].
+  apply idx_inv in E0. destruct E0 as [_ Hn].
   apply trait_mutate_inv in E1. destruct E1 as [Hid Hlen].
   unfold frame. cbn. rewrite Et.
   repeat split; auto.
@@ -183,7 +181,7 @@ Lemma link_trait_loop_spec : forall times g s g' s',
     g' = with_genes g (genes g') /\ Forall2 (gene_retraited (traits g)) (genes g) (genes g') /\ s_env s' = s_env s.
 Proof.
   induction times as [|n IH]; intros g s g' s' H; cbn [mutate_link_trait_loop] in H.
-  - minv. subst. repeat split; [now destruct g|apply Forall2_refl; now left].
+  - minv. subst. repeat split; [now destruct g'|apply Forall2_refl; now left].
   - minv. subst.
     apply idx_inv in E1, E2. destruct E1 as [_ Ht], E2 as [_ Hx].
     apply IH in H. cbn in H. destruct H as (Hg & HF & He).
@@ -206,7 +204,7 @@ Proof.
   assert (Hn : nodes g' = nodes g) by (rewrite Hg; reflexivity).
   assert (Htr : traits g' = traits g) by (rewrite Hg; reflexivity).
   repeat split; auto; try (rewrite Hg; reflexivity); try congruence.
-  rewrite <- Eg. rewrite Eg. eapply Forall2_map_eq; [|exact HF]. intros x y. apply gene_retraited_sig.
+  rewrite Eg. eapply Forall2_map_eq; [|exact HF]. intros x y. apply gene_retraited_sig.
 Qed.
 
 Lemma node_trait_loop_spec : forall times g s g' s',
@@ -214,7 +212,7 @@ Lemma node_trait_loop_spec : forall times g s g' s',
     g' = with_nodes g (nodes g') /\ Forall2 (node_retraited (traits g)) (nodes g) (nodes g') /\ s_env s' = s_env s.
 Proof.
   induction times as [|n IH]; intros g s g' s' H; cbn [mutate_node_trait_loop] in H.
-  - minv. subst. repeat split; [now destruct g|apply Forall2_refl; now left].
+  - minv. subst. repeat split; [now destruct g'|apply Forall2_refl; now left].
   - minv. subst.
     apply idx_inv in E1, E2. destruct E1 as [_ Ht], E2 as [_ Hx].
     apply IH in H. cbn in H. destruct H as (Hg & HF & He).
@@ -237,7 +235,7 @@ Proof.
   assert (Hn : genes g' = genes g) by (rewrite Hg; reflexivity).
   assert (Htr : traits g' = traits g) by (rewrite Hg; reflexivity).
   repeat split; auto; try (rewrite Hg; reflexivity); try congruence.
-  eapply Forall2_map_eq; [|exact HF]. intros x y. apply node_retraited_sig.
+  rewrite En. eapply Forall2_map_eq; [|exact HF]. intros x y. apply node_retraited_sig.
 Qed.
 
 (* ---------- mutateLinkWeights ---------- *)
@@ -245,17 +243,16 @@ Lemma ep_one_weight pw rt ga sv c e n x : env_pres (mutate_one_weight pw rt ga s
 Proof.
   unfold mutate_one_weight. apply ep_bind.
   - destruct sv; [apply ep_ret|]. destruct (_ && _); ep.
-  - intros [gp cgp]. ep. destruct ga; ep.
+  - intros [gp cgp]. ep.
 Qed.
 
 Lemma one_weight_inv pw rt ga sv c e n x s x' s' :
   mutate_one_weight pw rt ga sv c e n x s = Ok (x', s') -> reweighted x x'.
 Proof.
   unfold mutate_one_weight. intros H. minv. destruct a as [gp cgp]. minv.
-  destruct ga; minv.
-  - destruct (PrimFloat.ltb gp a2); minv; [subst; eexists; reflexivity|].
-    destruct (PrimFloat.ltb cgp a2); minv; subst; eexists; reflexivity.
-  - subst; eexists; reflexivity.
+  destruct ga; minv;
+    repeat match goal with H : (if ?c then _ else _) _ = Ok _ |- _ => destruct c; minv end;
+    subst; eexists; reflexivity.
 Qed.
 
 Lemma weights_loop_spec pw rt ga sv c e : forall l n s l' s',
@@ -289,7 +286,7 @@ Lemma toggle_loop_spec : forall times g s g' s',
     (forall a, has_enabled_out (genes g) a -> has_enabled_out (genes g') a) /\ s_env s' = s_env s.
 Proof.
   induction times as [|n IH]; intros g s g' s' H; cbn [toggle_loop] in H.
-  - minv. subst. repeat split; [now destruct g|apply Forall2_refl; now left|auto].
+  - minv. subst. repeat split; [now destruct g'|apply Forall2_refl; now left|auto].
   - minv. subst. apply idx_inv in E0. destruct E0 as [_ Hx].
     apply IH in H. destruct H as (Hg & HF & Hout & He).
     assert (Henv : s_env s' = s_env s) by (rewrite He; exact (ep_intn _ _ _ _ E)).
@@ -327,7 +324,7 @@ Proof.
   assert (Hn : nodes g' = nodes g) by (rewrite Hg; reflexivity).
   assert (Htr : traits g' = traits g) by (rewrite Hg; reflexivity).
   repeat split; auto; try (rewrite Hg; reflexivity); try congruence.
-  eapply Forall2_map_eq; [|exact HF]. apply maybe_disabled_sig.
+  rewrite Eg. eapply Forall2_map_eq; [|exact HF]. apply maybe_disabled_sig.
 Qed.
 
 (* ---------- mutateGeneReEnable ---------- *)
@@ -359,8 +356,8 @@ Lemma reenable_spec g s g' b s' :
 Proof.
   unfold mutate_gene_reenable. intros H. destruct (genes g) eqn:Eg; [minv|].
   minv. pairs. subst. unfold frame. cbn. rewrite Eg. repeat split; auto.
-  - apply reenable_first_sig.
-  - apply reenable_first_spec.
+  - exact (reenable_first_sig (g0 :: l)).
+  - exact (reenable_first_spec (g0 :: l)).
 Qed.
 
 (* ---------- mutateAllNonstructural ---------- *)
@@ -381,21 +378,33 @@ Lemma all_nonstructural_spec o g s g' b s' :
 Proof.
   unfold mutate_all_nonstructural. intros H. minv.
   eapply step_if_frame in E; [| |apply frame_refl].
-  2:{ intros g1 s1 g2 b2 s2 Hr. apply random_trait_spec in Hr. tauto. }
+  2:{ intros gg1 ss1 gg2 bb2 ss2 Hr. apply random_trait_spec in Hr. tauto. }
   destruct E as [F1 V1].
   eapply step_if_frame in E0; [| |exact F1].
-  2:{ intros g1 s1 g2 b2 s2 Hr. apply link_trait_spec in Hr. tauto. }
+  2:{ intros gg1 ss1 gg2 bb2 ss2 Hr. apply link_trait_spec in Hr. tauto. }
   destruct E0 as [F2 V2].
   eapply step_if_frame in E1; [| |exact F2].
-  2:{ intros g1 s1 g2 b2 s2 Hr. apply node_trait_spec in Hr. tauto. }
+  2:{ intros gg1 ss1 gg2 bb2 ss2 Hr. apply node_trait_spec in Hr. tauto. }
   destruct E1 as [F3 V3].
   eapply step_if_frame in E2; [| |exact F3].
-  2:{ intros g1 s1 g2 b2 s2 Hr. apply link_weights_spec in Hr. tauto. }
+  2:{ intros gg1 ss1 gg2 bb2 ss2 Hr. apply link_weights_spec in Hr. tauto. }
   destruct E2 as [F4 V4].
   eapply step_if_frame in E3; [| |exact F4].
-  2:{ intros g1 s1 g2 b2 s2 Hr. apply toggle_spec in Hr. tauto. }
+  2:{ intros gg1 ss1 gg2 bb2 ss2 Hr. apply toggle_spec in Hr. tauto. }
   destruct E3 as [F5 V5].
   eapply step_if_frame in H; [| |exact F5].
-  2:{ intros g1 s1 g2 b2 s2 Hr. apply reenable_spec in Hr. destruct Hr as (Hf & _ & _ & _ & _ & ->). auto. }
+  2:{ intros gg1 ss1 gg2 bb2 ss2 Hr. apply reenable_spec in Hr. destruct Hr as (Hf & _ & _ & _ & _ & ->). auto. }
   destruct H as [F6 V6]. split; [exact F6|congruence].
 Qed.
+
+(* the two halves of [toggle_spec], as stated in props/C05.v *)
+Lemma toggle_frame_spec times g s g' b s' :
+  mutate_toggle_enable times g s = Ok ((g', b), s') ->
+  frame g g' /\ nodes g' = nodes g /\ traits g' = traits g /\
+  Forall2 maybe_disabled (genes g) (genes g') /\ b = true /\ s_env s' = s_env s.
+Proof. intros H. destruct (toggle_spec _ _ _ _ _ _ H) as (A & B & C & D & _ & E & F). split; [exact A|]. repeat split; assumption. Qed.
+
+Lemma toggle_keeps_last_out times g s g' b s' :
+  mutate_toggle_enable times g s = Ok ((g', b), s') ->
+  forall a, has_enabled_out (genes g) a -> has_enabled_out (genes g') a.
+Proof. intros H. destruct (toggle_spec _ _ _ _ _ _ H) as (_ & _ & _ & _ & A & _). exact A. Qed.
